@@ -6,7 +6,6 @@ package main
 import (
 	"fmt"
 	"go/ast"
-	"go/constant"
 	"go/types"
 	"strings"
 
@@ -154,7 +153,7 @@ func (fx *FnExec) extern(st *State, in *ssa.Call, fn *ssa.Function, args []Val, 
 		if len(fn.Params) > 0 {
 			fx.safety(st, "subset", fx.siteName(in)+".NewSet-noargs", "(= (sl_len "+args[0].T+") 0)")
 		}
-		eng.regComp(setHeap, "(Array Int (Array Str Bool))")
+		eng.regSet()
 		ref := fx.newRef(st)
 		eng.heapSet(st, setHeap, store(eng.heapGet(st, setHeap), ref, "((as const (Array Str Bool)) false)"))
 		k(st, []Val{{T: ref, S: SInt, GT: in.Type()}})
@@ -168,20 +167,23 @@ func (fx *FnExec) invoke(st *State, in *ssa.Call, recv Val, m *types.Func, args 
 	rt := in.Common().Value.Type().String()
 	switch {
 	case strings.HasSuffix(rt, "golang-set.Set"):
-		eng.regComp(setHeap, "(Array Int (Array Str Bool))")
+		eng.regSet()
 		fx.trust("extern golang-set Set methods (Add/Union/Difference/Cardinality/Iter): point-wise set semantics on a ghost model; Union/Difference return fresh sets and modify nothing; internally synchronised (not verified)")
-		fx.safety(st, "nil", fx.siteName(in)+".set-receiver", "(> "+recv.T+" 0)")
+		fx.safety(st, "nil", fx.siteName(in)+".set-receiver", "(not (= "+recv.T+" 0))")
 		h := eng.heapGet(st, setHeap)
 		self := sel(h, recv.T)
 		switch m.Name() {
 		case "Add":
 			fx.safety(st, "typeassert", fx.siteName(in)+".set-of-strings", app("isStr", args[0].T))
 			x := app("unboxStr", args[0].T)
+			// model invariant of the set heap: only one-character valid strings are ever added
+			fx.emit(st, &Obligation{Kind: "pre", Name: fx.siteName(in) + ":set-of-characters", Goal: "(and (= (clen " + x + ") 1) (utf8ok " + x + "))"})
+			st.assume("(and (= (clen " + x + ") 1) (utf8ok " + x + "))")
 			was := sel(self, x)
 			eng.heapSet(st, setHeap, store(h, recv.T, store(self, x, "true")))
 			k(st, []Val{{T: not(was), S: SBool, GT: types.Typ[types.Bool]}})
 		case "Union", "Difference":
-			fx.safety(st, "nil", fx.siteName(in)+".set-argument", "(> "+args[0].T+" 0)")
+			fx.safety(st, "nil", fx.siteName(in)+".set-argument", "(not (= "+args[0].T+" 0))")
 			other := sel(h, args[0].T)
 			ref := fx.newRef(st)
 			na := eng.fresh(st, "set", "(Array Str Bool)")
@@ -194,7 +196,16 @@ func (fx *FnExec) invoke(st *State, in *ssa.Call, recv Val, m *types.Func, args 
 			eng.heapSet(st, setHeap, store(h, ref, na))
 			k(st, []Val{{T: ref, S: SInt, GT: in.Type()}})
 		case "Cardinality":
-			k(st, []Val{{T: app("card", self), S: SInt, GT: types.Typ[types.Int]}})
+			// T-CARD instantiated for this set: non-negative, and positive iff the set has a member
+			d := eng.define(st, "setelems", "(Array Str Bool)", self)
+			l := eng.fresh(st, "card", SInt)
+			x := eng.freshName("x")
+			eng.assumptions["T-CARD: Cardinality() of a set is its number of elements: non-negative, and >= 1 iff the set has a member"] = true
+			st.assume("(= " + l + " (card " + d + "))")
+			st.assume("(>= " + l + " 0)")
+			st.assume("(forall ((" + x + " Str)) (! (=> (select " + d + " " + x + ") (>= " + l + " 1)) :pattern ((select " + d + " " + x + "))))")
+			st.assume("(=> (>= " + l + " 1) (exists ((" + x + " Str)) (select " + d + " " + x + ")))")
+			k(st, []Val{{T: l, S: SInt, GT: types.Typ[types.Int]}})
 		case "Iter":
 			key := fx.enumKeyFor(in)
 			srt := "(Array Str Bool)"
@@ -272,10 +283,12 @@ func (eng *Engine) immutableGlobal(fx *FnExec, st *State, g *ssa.Global) (Val, b
 	// map literal with constant keys and values
 	eng.regMap(mt)
 	ks, vs := eng.sorts.sortOf(mt.Key()), eng.sorts.sortOf(mt.Elem())
-	dom := "((as const (Array " + ks + " Bool)) false)"
-	val := "((as const (Array " + ks + " " + vs + ")) " + eng.sorts.zero(mt.Elem()) + ")"
+	dom := eng.fresh(st, "gdom_"+tv.Name(), "(Array "+ks+" Bool)")
+	val := eng.fresh(st, "gval_"+tv.Name(), "(Array "+ks+" "+vs+")")
 	n := 0
 	seen := map[string]bool{}
+	var keyEqs []string
+	x := eng.freshName("x")
 	for _, el := range cl.Elts {
 		kv, ok := el.(*ast.KeyValueExpr)
 		if !ok {
@@ -287,13 +300,14 @@ func (eng *Engine) immutableGlobal(fx *FnExec, st *State, g *ssa.Global) (Val, b
 		}
 		kk := eng.constVal(kt.Value, mt.Key())
 		vv := eng.constVal(vt.Value, mt.Elem())
-		dom = store(dom, kk.T, "true")
-		val = store(val, kk.T, vv.T)
-		if !seen[constant.Val(kt.Value).(fmt.Stringer).String()] {
+		st.assume("(and (select " + dom + " " + kk.T + ") (= (select " + val + " " + kk.T + ") " + vv.T + "))")
+		keyEqs = append(keyEqs, "(= "+x+" "+kk.T+")")
+		if !seen[kt.Value.ExactString()] {
+			seen[kt.Value.ExactString()] = true
 			n++
 		}
 	}
-	n = len(cl.Elts)
+	st.assume("(forall ((" + x + " " + ks + ")) (! (=> (select " + dom + " " + x + ") " + or(keyEqs...) + ") :pattern ((select " + dom + " " + x + "))))")
 	fx.trust("package variable " + tv.Name() + " is never assigned outside its initialiser (checked on every run): its contents are the map literal")
 	ref := eng.globalMapRef(tv)
 	// the global's map object lives at a fixed negative reference; pin its components
